@@ -229,7 +229,7 @@ players, the overlap of their delivery goroutines did not occur in six runs). Ne
 a genuine defect; with the repair cf92d92 the seeded change no longer lets media through).
 Not caught by the check of its own property: **C01-4** (caught by `bin/check C13 quick`), **C20-6** (caught by `bin/check C03 quick`), **C03-3** (caught by `bin/check C04 quick` as drop-not-aligned; the
 C03 clause needs a schedule the quick tier does not generate) and **C08-2** (caught by `bin/check C02 quick`).
-Not adopted (see `seeded/_not_adopted/README`): C16-2, C16-3 (outside the statement), C01-5 (unreachable through the server). 
+Not adopted (see `seeded/_not_adopted/README.md`): C16-2, C16-3 (outside the statement), C01-5 (unreachable through the server). 
 '''
 
 tiers = '''
